@@ -631,6 +631,8 @@ pub fn op_name(op: &Op) -> &'static str {
         Op::Cmp { .. } => "Cmp",
         Op::PairNew { .. } => "PairNew",
         Op::PairIdx { .. } => "PairIdx",
+        Op::HugeCount { .. } => "HugeCount",
+        Op::HugeFindIter { .. } => "HugeFindIter",
         Op::ByteAll { .. } => "ByteAll",
         Op::PackedAll { .. } => "PackedAll",
         Op::Lockstep { .. } => "Lockstep",
